@@ -94,7 +94,7 @@ impl Check for C03 {
     }
     fn cases(&self, tier: Tier) -> u64 {
         match tier {
-            Tier::Quick => 400,
+            Tier::Quick => 1000,
             Tier::Thorough => 3000,
         }
     }
